@@ -939,18 +939,18 @@ var c10OracleEntryNames = []string{"x", "x", "x-1", "ax", "x.y", "xzy", "reg:500
 func c10GenOracleRes(r *Rng) c10Res {
 	kinds := [][2]string{{"apps/v1", "Deployment"}, {"apps/v1", "StatefulSet"}, {"v1", "Pod"}, {"v1", "ConfigMap"}, {"batch/v1", "CronJob"}, {"example.com/v1", "MyKind"}, {"apps/v1", "ReplicaSet"}, {"apps/v1", "DaemonSet"}}
 	k := kinds[r.Intn(len(kinds))]
-	res := c10Res{APIVersion: k[0], Kind: k[1], Name: pickN(r, c10Names), Namespace: pickN(r, []string{"", "", "ns", "ns-1"})}
-	res.Labels = append(res.Labels, [2]string{"app", pickN(r, c10LabelVals)})
+	res := c10Res{APIVersion: k[0], Kind: k[1], Name: c10PickN(r, c10Names), Namespace: c10PickN(r, []string{"", "", "ns", "ns-1"})}
+	res.Labels = append(res.Labels, [2]string{"app", c10PickN(r, c10LabelVals)})
 	if r.Chance(50) {
-		res.Labels = append(res.Labels, [2]string{"tier", pickN(r, c10LabelVals)})
+		res.Labels = append(res.Labels, [2]string{"tier", c10PickN(r, c10LabelVals)})
 	}
 	if r.Chance(30) {
-		res.Annos = append(res.Annos, [2]string{"note", pickN(r, []string{"a:b:c", "nn", "x/y/z"})})
+		res.Annos = append(res.Annos, [2]string{"note", c10PickN(r, []string{"a:b:c", "nn", "x/y/z"})})
 	}
 	if res.contPath() != "none" {
 		used := map[string]bool{}
 		for i := 1 + r.Intn(3); i > 0; i-- {
-			c := c10Cont{Name: pickN(r, c10Names), Image: pickN(r, c10OracleImages)}
+			c := c10Cont{Name: c10PickN(r, c10Names), Image: c10PickN(r, c10OracleImages)}
 			if used[c.Name] {
 				continue
 			}
@@ -962,7 +962,7 @@ func c10GenOracleRes(r *Rng) c10Res {
 			}
 		}
 		if r.Chance(60) && res.Kind != "Pod" && res.Kind != "CronJob" && res.Kind != "DaemonSet" {
-			res.Replicas = pickN(r, []string{"1", "2", "3"})
+			res.Replicas = c10PickN(r, []string{"1", "2", "3"})
 		}
 	}
 	return res
@@ -988,7 +988,7 @@ func c10GenTree(r *Rng) c10Tree {
 	switch r.Intn(10) {
 	case 0, 1, 2: // images
 		for i := 1 + r.Intn(2); i > 0; i-- {
-			im := c10Image{Name: pickN(r, c10OracleEntryNames)}
+			im := c10Image{Name: c10PickN(r, c10OracleEntryNames)}
 			switch r.Intn(6) {
 			case 0:
 				im.NewName = "new"
@@ -1006,7 +1006,7 @@ func c10GenTree(r *Rng) c10Tree {
 			t.Images = append(t.Images, im)
 		}
 	case 3, 4: // replicas
-		name := pickN(r, c10Names)
+		name := c10PickN(r, c10Names)
 		if r.Chance(70) {
 			name = pick().Name
 			if t.Prefix != "" && r.Chance(50) {
@@ -1020,9 +1020,9 @@ func c10GenTree(r *Rng) c10Tree {
 		if src.Namespace != "" {
 			rp.Source.Namespace = src.Namespace
 		}
-		rp.Source.FieldPath = pickN(r, []string{"metadata.name", "", "metadata.labels.app", "metadata.annotations.note"})
+		rp.Source.FieldPath = c10PickN(r, []string{"metadata.name", "", "metadata.labels.app", "metadata.annotations.note"})
 		if rp.Source.FieldPath == "metadata.annotations.note" && r.Chance(70) {
-			rp.Source.Options = &c10Opts{Delimiter: pickN(r, []string{":", "/"}), Index: r.Intn(3)}
+			rp.Source.Options = &c10Opts{Delimiter: c10PickN(r, []string{":", "/"}), Index: r.Intn(3)}
 		}
 		tg := c10Target{}
 		tp := pick()
@@ -1034,13 +1034,13 @@ func c10GenTree(r *Rng) c10Tree {
 			sel.Name = tp.Name
 		}
 		if r.Chance(20) {
-			sel.Lab = pickN(r, []string{"app=x", "app!=x", "tier"})
+			sel.Lab = c10PickN(r, []string{"app=x", "app!=x", "tier"})
 		}
 		tg.Select = &sel
 		if r.Chance(30) {
 			tg.Reject = append(tg.Reject, c10Sel{c10Id: c10Id{Name: pick().Name}})
 		}
-		cname := pickN(r, []string{"x", "x", "ax", "x-1", "x.y", "xzy", "zz"})
+		cname := c10PickN(r, []string{"x", "x", "ax", "x-1", "x.y", "xzy", "zz"})
 		cpath := map[string]string{"pod": "spec.containers", "tmpl": "spec.template.spec.containers", "cron": "spec.jobTemplate.spec.template.spec.containers", "none": "spec.containers"}[tp.contPath()]
 		switch r.Intn(5) {
 		case 0, 1, 2:
@@ -1069,19 +1069,19 @@ func c10GenTree(r *Rng) c10Tree {
 		s := c10Sel{}
 		tp := pick()
 		if r.Chance(70) {
-			s.Name = pickN(r, []string{tp.Name, "x", "x.*", "x|ax", "x-1", ".*", "x.y", "[a-z]+", "p-x", "p-.*", "x$", "^x"})
+			s.Name = c10PickN(r, []string{tp.Name, "x", "x.*", "x|ax", "x-1", ".*", "x.y", "[a-z]+", "p-x", "p-.*", "x$", "^x"})
 		}
 		if r.Chance(50) {
-			s.Kind = pickN(r, []string{tp.Kind, "Deployment", "Deploy", ".*Set", "Pod|Deployment", "MyKind"})
+			s.Kind = c10PickN(r, []string{tp.Kind, "Deployment", "Deploy", ".*Set", "Pod|Deployment", "MyKind"})
 		}
 		if r.Chance(25) {
-			s.Namespace = pickN(r, []string{"ns", "ns-1", "default", "ns.*", "n"})
+			s.Namespace = c10PickN(r, []string{"ns", "ns-1", "default", "ns.*", "n"})
 		}
 		if r.Chance(15) {
-			s.Group = pickN(r, []string{"apps", "app", "example.com", "batch|apps"})
+			s.Group = c10PickN(r, []string{"apps", "app", "example.com", "batch|apps"})
 		}
 		if r.Chance(25) {
-			s.Lab = pickN(r, []string{"app=x", "app!=x", "tier", "!tier", "app=x,tier=web", "app=ax"})
+			s.Lab = c10PickN(r, []string{"app=x", "app!=x", "tier", "!tier", "app=x,tier=web", "app=ax"})
 		}
 		t.Patch = &s
 	}
